@@ -48,19 +48,20 @@ VARIABLE S
 
 D == 0   \* task id of the dispatch; callers are their call numbers
 
+NoSleep == -1      \* the DelayQueue holds no Sleep
 NoVal == <<"none", 0, 0>>
 NoFault == "none"
 
 CallInit == [st |-> "idle", id |-> -1, dl |-> 0, closed |-> FALSE, val |-> NoVal, oneW |-> FALSE,
              armed |-> TRUE]
 
-Init ==
-  S = [ now |-> 0, call |-> [c \in Callers |-> CallInit], nextId |-> 0, handles |-> 1,
+InitS ==
+      [ now |-> 0, call |-> [c \in Callers |-> CallInit], nextId |-> 0, handles |-> 1,
         pend |-> <<>>, waiters |-> <<>>, granted |-> {}, rxClosed |-> FALSE, rxW |-> FALSE,
         canc |-> <<>>, cxW |-> FALSE,
         infl |-> {},          \* set of <<id, c>>
         dq |-> {},            \* set of <<id, at>>
-        dqW |-> FALSE, dqS |-> FALSE,
+        dqW |-> FALSE, dqS |-> FALSE, dly |-> NoSleep, wnow |-> 0, dqx |-> <<>>,
         term |-> "none",
         dpc |-> "idle", rd |-> "none", w1 |-> "none", w2 |-> "none", wr |-> "none", ret |-> "none",
         ens |-> "none",       \* which caller of ensure_writeable is active: "wreq" | "wcan"
@@ -68,12 +69,13 @@ Init ==
         dstate |-> "live",    \* "live" | "done" | "dropped"
         inq |-> <<>>, eof |-> FALSE, rdW |-> FALSE, rdDone |-> FALSE,
         buffered |-> 0, open |-> TRUE, credits |-> 0, wrW |-> FALSE, flW |-> FALSE, closed |-> FALSE,
-        fault |-> NoFault, faultsLeft |-> 1, sinkLeft |-> 2,
+        fault |-> NoFault, faultK |-> 1, faultsLeft |-> 1, sinkLeft |-> 2,
         woken |-> {D},
         peerLeft |-> PeerBudget, pushN |-> 0,
         o |-> OInit(MaxInFlight, Buf),
         tags |-> {},          \* notable events of this behaviour (steers schedule export)
         sched |-> <<>> ]
+Init == S = InitS
 
 (* ------------------------------------------------------------------ small helpers *)
 Wake(s, t) == [s EXCEPT !.woken = @ \cup {t}]
@@ -82,13 +84,13 @@ Ob(s, x) == [s EXCEPT !.o = x]
 Rec(s, a) == IF ExportSched THEN [s EXCEPT !.sched = Append(@, a)] ELSE s
 Tag(s, t) == IF ExportSched THEN [s EXCEPT !.tags = @ \cup {t}] ELSE s
 Body(id, n) == "r" \o ToString(id) \o "." \o ToString(n)
+EBody(id, n) == "e" \o ToString(id) \o "." \o ToString(n)      \* detail of a server error pushed by the peer
 InflIds(s) == {p[1] : p \in s.infl}
 CallOfId(s, id) == (CHOOSE p \in s.infl : p[1] = id)[2]
 AliveFuture(s, c) == s.call[c].st \in {"new", "waitperm", "await", "dropA", "dropB"}
 Senders(s) == s.handles + Cardinality({c \in Callers : AliveFuture(s, c)})
 Min(a, b) == IF a < b THEN a ELSE b
 Max(a, b) == IF a > b THEN a ELSE b
-Earliest(s) == IF s.dq = {} THEN 1000000 ELSE CHOOSE t \in {p[2] : p \in s.dq} : \A u \in {p[2] : p \in s.dq} : t <= u
 
 (* the last Sender / RequestCancellation clone went away: both receivers are woken *)
 SendersGone(s) ==
@@ -96,14 +98,36 @@ SendersGone(s) ==
     THEN LET s1 == WakeIf(s, s.rxW \/ s.cxW, D) IN [s1 EXCEPT !.rxW = FALSE, !.cxW = FALSE]
     ELSE s
 
-(* ---- DelayQueue *)
+(* ---- DelayQueue (tokio-util 0.7): entries dq, the waker of the last poll_expired (dqW), and one Sleep  *)
+(* `delay` with its deadline dly and whether a waker is registered in it (dqS: it was polled and was       *)
+(* pending since it was created; reset keeps the registration).  insert: an earlier deadline wakes the     *)
+(* stored waker and resets / creates the Sleep; remove: if the earliest deadline changed the Sleep is      *)
+(* reset to the next one (dropped when none is left), and emptying the queue wakes the stored waker.       *)
+(* An entry whose deadline is not after the wheel's clock (wnow: the deadline of the last Sleep that       *)
+(* elapsed) is not put into the wheel but onto the `expired` stack dqx; it is popped first, last pushed     *)
+(* first, without looking at the Sleep, and it does not count for the next deadline.                       *)
+EarliestIn(q) == IF q = {} THEN NoSleep ELSE CHOOSE t \in {p[2] : p \in q} : \A u \in {p[2] : p \in q} : t <= u
+InStack(s, id) == \E i \in DOMAIN s.dqx : s.dqx[i] = id
+Wheel(s) == {p \in s.dq : ~InStack(s, p[1])}
+SleepReset(s, at) ==               \* Sleep::reset: fires at once (if a waker is registered) when `at` has passed
+  LET s1 == [s EXCEPT !.dly = at] IN
+  IF at <= s.now /\ s.dqS THEN [Wake(s1, D) EXCEPT !.dqS = FALSE] ELSE s1
+SleepNew(s, at) == [s EXCEPT !.dly = at, !.dqS = FALSE]
 DqInsert(s, id, at) ==
-  LET newEarliest == at < Earliest(s)
-      s1 == [s EXCEPT !.dq = @ \cup {<<id, at>>}]
-  IN IF newEarliest /\ s.dqW THEN [Wake(s1, D) EXCEPT !.dqW = FALSE] ELSE s1
+  LET s1 == [s EXCEPT !.dq = @ \cup {<<id, at>>}, !.dqx = IF at <= s.wnow THEN <<id>> \o @ ELSE @] IN
+  IF s.dly = NoSleep \/ s.dly > at THEN
+    LET s2 == IF s.dqW THEN [Wake(s1, D) EXCEPT !.dqW = FALSE] ELSE s1 IN
+    IF s.dly = NoSleep THEN SleepNew(s2, at) ELSE SleepReset(s2, at)
+  ELSE s1
 DqRemove(s, id) ==
-  LET s1 == [s EXCEPT !.dq = {p \in @ : p[1] # id}]
-  IN IF s1.dq = {} /\ s.dq # {} /\ s.dqW THEN [Wake(s1, D) EXCEPT !.dqW = FALSE] ELSE s1
+  LET prev == EarliestIn(Wheel(s))
+      s1 == [s EXCEPT !.dq = {p \in @ : p[1] # id}, !.dqx = SelectSeq(@, LAMBDA x : x # id)]
+      next == EarliestIn(Wheel(s1))
+      s2 == IF prev = next THEN s1
+            ELSE IF next = NoSleep THEN [s1 EXCEPT !.dly = NoSleep, !.dqS = FALSE]
+            ELSE IF s.dly # NoSleep THEN SleepReset(s1, next) ELSE SleepNew(s1, next)
+  IN IF s1.dq = {} /\ s.dq # {} /\ s2.dqW THEN [Wake(s2, D) EXCEPT !.dqW = FALSE] ELSE s2
+DqClear(s) == [s EXCEPT !.dq = {}, !.dly = NoSleep, !.dqS = FALSE, !.dqx = <<>>, !.wnow = 0]
 
 (* ---- oneshot: the dispatch completes call c with value v *)
 OneSend(s, c, v) ==
@@ -123,9 +147,12 @@ ReleasePermit(s) ==
 PermitsFree(s) == Buf - Len(s.pend) - Cardinality(s.granted)
 
 (* ------------------------------------------------------------------ transport as the dispatch sees it *)
-FaultHits(s, op) == s.fault = op
+(* a fault armed at the k-th next use of an operation: every use that does not fail counts down *)
+FaultHits(s, op) == s.fault = op /\ s.faultK <= 1
 ClearFault(s) == [s EXCEPT !.fault = NoFault]
-SinkLog(s, op, res) == Ob(s, OSinkOp(s.o, op, res, s.buffered))
+SinkLog(s, op, res) ==
+  LET s1 == IF s.fault = op /\ res # "err" THEN [s EXCEPT !.faultK = @ - 1] ELSE s
+  IN Ob(s1, OSinkOp(s1.o, op, res, s1.buffered))
 
 ReadyNow(s) == CASE SinkMode = "always" -> TRUE
                  [] SinkMode = "coupled" -> s.buffered < Cap
@@ -175,7 +202,7 @@ DrainPend(s) ==
 
 D_Shut2(s) ==
   LET s1 == FailInfl(s, s.infl)
-      s2 == [s1 EXCEPT !.infl = {}, !.dq = {}]
+      s2 == DqClear([s1 EXCEPT !.infl = {}])
       s3 == DrainPend(s2)
   IN \* poll_recv after close: Ready(None) only when no permit is outstanding
      IF s3.granted # {}
@@ -192,12 +219,12 @@ D_Read(s) ==
   ELSE IF s.inq # <<>> THEN
     LET r == Head(s.inq)
         s1 == SinkLog([s EXCEPT !.inq = Tail(@)], "next", "item")
-        s2 == Ob(s1, OHanded(s1.o, [id |-> r[1], ok |-> TRUE, body |-> Body(r[1], r[2])]))
+        s2 == Ob(s1, OHanded(s1.o, [id |-> r[1], ok |-> r[3], body |-> IF r[3] THEN Body(r[1], r[2]) ELSE EBody(r[1], r[2])]))
         s3 == IF r[1] \in InflIds(s2)
                 THEN LET c == CallOfId(s2, r[1])
                          t1 == [s2 EXCEPT !.infl = {p \in @ : p[1] # r[1]}]
                          t2 == DqRemove(t1, r[1])
-                     IN OneSend(t2, c, <<"ok", r[1], r[2]>>)
+                     IN OneSend(t2, c, <<IF r[3] THEN "ok" ELSE "server", r[1], r[2]>>)
                 ELSE Tag(s2, "resp-unknown")
     IN Goto([s3 EXCEPT !.rd = "some"], "wreq")
   ELSE IF s.eof THEN
@@ -281,21 +308,32 @@ D_WCan2(s) ==
   ELSE IF Senders(s) = 0 THEN Goto([s EXCEPT !.w2 = "closed"], "exp")
   ELSE Goto([s EXCEPT !.w2 = "pending", !.cxW = TRUE], "exp")
 
-(* in_flight_requests.poll_expired *)
+(* in_flight_requests.poll_expired = DelayQueue::poll_expired / poll_idx.  One micro-step per loop turn:  *)
+(* no Sleep -> Ready(None); Sleep not elapsed -> Pending with the waker registered; Sleep elapsed -> the  *)
+(* wheel advances to its deadline, an entry due by then comes out (Ready), the Sleep is replaced by a     *)
+(* fresh one for the next deadline; if nothing was due the loop polls that new Sleep.                     *)
 D_Exp(s) ==
-  LET due == {p \in s.dq : p[2] <= s.now}
-      s0 == [s EXCEPT !.dqW = TRUE]
-  IN IF due # {} THEN
+  LET s0 == [s EXCEPT !.dqW = TRUE]
+      Expire(t, id) ==               \* the entry `id` came out: it leaves the table and its call fails with DeadlineExceeded
+        LET t1 == [t EXCEPT !.dq = {p \in @ : p[1] # id}]
+            t2 == IF id \in InflIds(t1)
+                    THEN LET c == CallOfId(t1, id) IN
+                         OneSend([t1 EXCEPT !.infl = {q \in @ : q[1] # id}], c, <<"deadline", 0, 0>>)
+                    ELSE t1
+        IN Goto(Tag([t2 EXCEPT !.wr = "some"], "expired"), "match")
+  IN
+  IF s0.dqx # <<>> THEN Expire([s0 EXCEPT !.dqx = Tail(@)], Head(s0.dqx))
+  ELSE IF s0.dly = NoSleep THEN Goto(s0, "fin")
+  ELSE IF s0.dly > s0.now THEN Goto([s0 EXCEPT !.dqS = TRUE], "fin")
+  ELSE
+    LET due == {p \in Wheel(s0) : p[2] <= s0.dly}
+        s1 == [s0 EXCEPT !.wnow = s0.dly] IN
+    IF due # {} THEN
        \* entries of one wheel slot come out last-inserted first (observed; equal deadlines only)
        LET p == CHOOSE x \in due : \A y \in due : x[2] < y[2] \/ (x[2] = y[2] /\ x[1] >= y[1])
-           s1 == [s0 EXCEPT !.dq = @ \ {p}]
-           s2 == IF p[1] \in InflIds(s1)
-                   THEN LET c == CallOfId(s1, p[1]) IN
-                        OneSend([s1 EXCEPT !.infl = {q \in @ : q[1] # p[1]}], c, <<"deadline", 0, 0>>)
-                   ELSE s1
-       IN Goto(Tag([s2 EXCEPT !.wr = "some"], "expired"), "match")
-     ELSE IF s.dq = {} THEN Goto(s0, "fin")
-     ELSE Goto([s0 EXCEPT !.dqS = TRUE], "fin")
+           rest == Wheel(s1) \ {p}
+       IN Expire([s1 EXCEPT !.dly = EarliestIn(rest), !.dqS = FALSE], p[1])
+    ELSE Goto([s1 EXCEPT !.dly = EarliestIn(Wheel(s1)), !.dqS = FALSE], "exp")
 
 (* the tail of pump_write: close when both queues are closed, else flush *)
 D_Fin(s) ==
@@ -390,7 +428,7 @@ C_Poll(s, c) ==
          IF s.call[c].val # NoVal THEN
            LET v == s.call[c].val IN
            Resolve([s0 EXCEPT !.call[c].armed = FALSE], c, ResultKind(v),
-                   IF v[1] = "ok" THEN Body(v[2], v[3]) ELSE "")
+                   IF v[1] = "ok" THEN Body(v[2], v[3]) ELSE IF v[1] = "server" THEN EBody(v[2], v[3]) ELSE "")
          ELSE IF s.dstate = "dropped" THEN Resolve(s0, c, "shutdown", "")
          ELSE [s0 EXCEPT !.call[c].oneW = TRUE]
     [] OTHER -> s0
@@ -428,12 +466,40 @@ Idle == S.dpc = "idle"
 EnvOK == Idle \/ ~AtomicPolls
 NoWindow == \A c \in Callers : S.call[c].st \notin {"dropA", "dropB"}
 
+(* environment steps as operators on the state (used by the actions below and by Trace_ClientMech) *)
+F_CallStart(s, c, dl) ==
+  LET s1 == [s EXCEPT !.call[c].st = "new", !.call[c].dl = dl, !.woken = @ \cup {c}]
+  IN Ob(s1, OCallStart([s1.o EXCEPT !.now = s.now], c, dl, c, 7, FALSE))
+F_HandleCount(s, k) ==
+  LET s1 == [s EXCEPT !.handles = k, !.o = OHandles(s.o, k)] IN IF k = 0 THEN SendersGone(s1) ELSE s1
+F_PeerSend(s, id, ok) ==
+  LET n == s.pushN + 1
+      s1 == [s EXCEPT !.inq = Append(@, <<id, n, ok>>), !.pushN = n, !.rdW = FALSE]
+  IN Ob(WakeIf(s1, s.rdW, D), OPush(s1.o, [id |-> id, ok |-> ok, body |-> IF ok THEN Body(id, n) ELSE EBody(id, n)]))
+F_PeerEof(s) ==
+  LET s1 == WakeIf([s EXCEPT !.eof = TRUE, !.rdW = FALSE], s.rdW, D) IN Ob(s1, OEofPushed(s1.o))
+F_Tick(s, d) ==
+  LET t == s.now + d
+      fires == s.dqS /\ s.dly # NoSleep /\ s.dly <= t
+      s1 == [s EXCEPT !.now = t, !.o.now = t, !.dqS = IF fires THEN FALSE ELSE @]
+  IN WakeIf(s1, fires, D)
+F_SinkOpen(s) == WakeIf([s EXCEPT !.open = TRUE, !.wrW = FALSE, !.flW = FALSE], s.wrW \/ s.flW, D)
+F_SinkBlock(s) == [s EXCEPT !.open = FALSE]
+F_SinkCredit(s) == WakeIf([s EXCEPT !.credits = @ + 1, !.wrW = FALSE], s.wrW, D)
+F_Arm(s, op, k) ==
+  LET s1 == [s EXCEPT !.fault = op, !.faultK = k]
+  IN CASE op = "next"  -> WakeIf([s1 EXCEPT !.rdW = FALSE], s.rdW, D)
+       [] op = "ready" -> WakeIf([s1 EXCEPT !.wrW = FALSE], s.wrW, D)
+       [] op = "flush" -> WakeIf([s1 EXCEPT !.flW = FALSE], s.flW, D)
+       [] OTHER -> s1
+(* one poll of the dispatch future by a single-threaded executor (the future is dropped once it completes) *)
+F_DispatchPoll(s) ==
+  LET s1 == DRun(D_Begin(s), SpinLimit) IN IF s1.dstate = "done" THEN DropDispatch(s1) ELSE s1
+
 CallStart(c, dl) ==
   /\ EnvOK /\ S.call[c].st = "idle" /\ S.handles > 0
   /\ \A c2 \in Callers : c2 < c => S.call[c2].st # "idle"          \* symmetry: start calls in order
-  /\ LET s1 == [S EXCEPT !.call[c].st = "new", !.call[c].dl = dl, !.woken = @ \cup {c}]
-         s2 == Ob(s1, OCallStart([s1.o EXCEPT !.now = S.now], c, dl, c, 7, FALSE))
-     IN S' = Rec(s2, [a |-> "Call", c |-> c, dl |-> dl])
+  /\ S' = Rec(F_CallStart(S, c, dl), [a |-> "Call", c |-> c, dl |-> dl])
 
 CallerPoll(c) ==
   /\ EnvOK /\ c \in S.woken /\ AliveFuture(S, c) /\ S.call[c].st \in {"new", "waitperm", "await"}
@@ -452,7 +518,7 @@ AbandonCancel(c) ==
 
 HandleDrop ==
   /\ AllowHandleDrop /\ EnvOK /\ S.handles > 0
-  /\ S' = Rec(SendersGone([S EXCEPT !.handles = 0, !.o = OHandles(S.o, 0)]), [a |-> "HandleDrop", h |-> 0])
+  /\ S' = Rec(F_HandleCount(S, 0), [a |-> "HandleDrop", h |-> 0])
 
 DispatchPoll ==
   /\ S.dstate = "live" /\ Idle /\ D \in S.woken
@@ -471,42 +537,29 @@ DispatchStep ==
 
 PeerSend(id) ==
   /\ EnvOK /\ S.peerLeft > 0 /\ ~S.eof /\ S.dstate = "live"
-  /\ LET n == S.pushN + 1
-         s1 == [S EXCEPT !.inq = Append(@, <<id, n>>), !.peerLeft = @ - 1, !.pushN = n, !.rdW = FALSE]
-         s2 == Ob(WakeIf(s1, S.rdW, D), OPush(s1.o, [id |-> id, ok |-> TRUE, body |-> Body(id, n)]))
-     IN S' = Rec(s2, [a |-> "Peer", id |-> id])
+  /\ S' = Rec([F_PeerSend(S, id, TRUE) EXCEPT !.peerLeft = @ - 1], [a |-> "Peer", id |-> id])
 
 PeerEof ==
   /\ AllowEof /\ EnvOK /\ ~S.eof /\ S.dstate = "live"
-  /\ LET s1 == WakeIf([S EXCEPT !.eof = TRUE, !.rdW = FALSE], S.rdW, D) IN
-     S' = Rec(Ob(s1, OEofPushed(s1.o)), [a |-> "PeerEof"])
+  /\ S' = Rec(F_PeerEof(S), [a |-> "PeerEof"])
 
 Tick ==
   /\ EnvOK /\ S.now < MaxTime
-  /\ LET t == S.now + 1
-         fires == S.dqS /\ \E p \in S.dq : p[2] <= t
-         s1 == [S EXCEPT !.now = t, !.o.now = t, !.dqS = IF fires THEN FALSE ELSE @]
-     IN S' = Rec(WakeIf(s1, fires, D), [a |-> "Tick", d |-> 1])
+  /\ S' = Rec(F_Tick(S, 1), [a |-> "Tick", d |-> 1])
 
 SinkOpen ==
   /\ SinkMode = "coupled" /\ EnvOK /\ ~S.open
-  /\ LET s1 == WakeIf([S EXCEPT !.open = TRUE, !.wrW = FALSE, !.flW = FALSE], S.wrW \/ S.flW, D) IN
-     S' = Rec(s1, [a |-> "SinkOpen"])
+  /\ S' = Rec(F_SinkOpen(S), [a |-> "SinkOpen"])
 SinkBlock ==
   /\ SinkMode = "coupled" /\ EnvOK /\ S.open /\ S.dstate = "live" /\ S.sinkLeft > 0
-  /\ S' = Rec([S EXCEPT !.open = FALSE, !.sinkLeft = @ - 1], [a |-> "SinkBlock"])
+  /\ S' = Rec([F_SinkBlock(S) EXCEPT !.sinkLeft = @ - 1], [a |-> "SinkBlock"])
 SinkCredit ==
   /\ SinkMode = "independent" /\ EnvOK /\ S.credits < 1 /\ S.dstate = "live"
-  /\ S' = Rec(WakeIf([S EXCEPT !.credits = @ + 1, !.wrW = FALSE], S.wrW, D), [a |-> "SinkCredit"])
+  /\ S' = Rec(F_SinkCredit(S), [a |-> "SinkCredit"])
 
 Arm(op) ==
   /\ EnvOK /\ S.fault = NoFault /\ S.faultsLeft > 0 /\ S.dstate = "live"
-  /\ LET s1 == [S EXCEPT !.fault = op, !.faultsLeft = @ - 1]
-         s2 == CASE op = "next"  -> WakeIf([s1 EXCEPT !.rdW = FALSE], S.rdW, D)
-                 [] op = "ready" -> WakeIf([s1 EXCEPT !.wrW = FALSE], S.wrW, D)
-                 [] op = "flush" -> WakeIf([s1 EXCEPT !.flW = FALSE], S.flW, D)
-                 [] OTHER -> s1
-     IN S' = Rec(s2, [a |-> "Arm", op |-> op, k |-> 1])
+  /\ S' = Rec([F_Arm(S, op, 1) EXCEPT !.faultsLeft = @ - 1], [a |-> "Arm", op |-> op, k |-> 1])
 
 Next ==
   \/ \E c \in Callers, dl \in Deadlines : CallStart(c, dl)
